@@ -300,6 +300,16 @@ def g_single(ctx, rng, i):
     _try(fn, *args)
     if kind in (8, 9):
         _try(args[0].is_coplanar, args[1])
+    # the very same object passed twice is the plainest coincidence (function and method forms)
+    x = args[int(rng.integers(len(args)))]
+    if type(x).__name__ in ("Point", "Line", "Plane"):
+        f2 = g.join if type(x).__name__ == "Point" else g.meet
+        _try(f2, x, x)
+        _try(getattr(x, "join" if f2 is g.join else "meet"), x)
+        if x.dim == 3 and len(args) >= 2 and type(args[0]) is type(args[1]) is type(x) and type(x).__name__ != "Line":
+            y = args[0] if args[1] is x else args[1]
+            _try(f2, x, y, x)
+            _try(f2, y, x, x)
 
 
 def _stack(g, objs):
